@@ -100,6 +100,11 @@ pub fn std_sweep(tier: Tier, flavor: Flavor) -> Vec<Part> {
         family: gen::es_f(tier.pick(2, 3)),
         cfgs: gen::cfgs(&[ALL_MODES, 1, NO_ASCII], &[d], &both, &both),
     });
+    parts.push(Part {
+        name: "ES-F2 macro token sequences",
+        family: gen::es_f_tokens(tier.pick(4, 5)),
+        cfgs: gen::cfgs(&[ALL_MODES, NO_ASCII], &[d], &both, &both),
+    });
     if tier == Tier::Thorough {
         let lt = gen::lists_thorough();
         parts.push(Part {
